@@ -24,12 +24,13 @@ pub enum Dest {
     DirWithStale,
     DevFull,
     MissingParent,
+    MissingParentLong,
     ParentIsFile,
     ReadOnly,
     NoOutput,
 }
 
-const DESTS: [Dest; 9] = [Dest::Absent, Dest::ExistingLonger, Dest::DirEmpty, Dest::DirWithStale, Dest::DevFull, Dest::MissingParent, Dest::ParentIsFile, Dest::ReadOnly, Dest::NoOutput];
+const DESTS: [Dest; 10] = [Dest::Absent, Dest::ExistingLonger, Dest::DirEmpty, Dest::DirWithStale, Dest::DevFull, Dest::MissingParent, Dest::MissingParentLong, Dest::ParentIsFile, Dest::ReadOnly, Dest::NoOutput];
 
 fn snapshot(root: &Path) -> BTreeMap<String, Vec<u8>> {
     fn walk(p: &Path, root: &Path, out: &mut BTreeMap<String, Vec<u8>>) {
@@ -135,6 +136,12 @@ fn prepare(work: &Path, d: &Dest, ext: &str, long: usize, root_user: bool) -> Op
         }
         Dest::MissingParent => {
             let p = out.join("missing").join("x").with_extension(&ext[1..]);
+            Prepared { mode: Some(OutputMode::SingleFile(p.clone())), given: Some(rel(&p)), nodes: vec![(rel(&p), 'b')] }
+        }
+        Dest::MissingParentLong => {
+            // a failing write whose message quotes a path of several hundred bytes of multi-byte characters, shifted by 0..2 bytes
+            let a = format!("{}{}", "a".repeat(long % 3), "語".repeat(70));
+            let p = out.join("missing").join(a).join("ü€".repeat(40)).join("x").with_extension(&ext[1..]);
             Prepared { mode: Some(OutputMode::SingleFile(p.clone())), given: Some(rel(&p)), nodes: vec![(rel(&p), 'b')] }
         }
         Dest::ParentIsFile => {
